@@ -591,9 +591,9 @@ func c02R9(c *core.Ctx, rule string) {
 // decremented counter is <= 0. The trie insert/removal and the cluster announcements hang on
 // these booleans.
 func counterTransitions(c *core.Ctx, rule string) {
-	c.Rule(rule, "Counters: Increment = Counter++ then Counter == 1; IncrementOnce = (Counter == 0) and only then Counter++; Decrement = Counter-- then remove and return true iff Counter <= 0, false otherwise", 3)
+	c.Rule(rule, "Counters: Increment = Counter++ then Counter == 1; IncrementOnce increments only when Counter == 0 and returns exactly that; Decrement = Counter-- then removes and returns true exactly when the counter has reached 0, false otherwise (comparisons judged by their truth table, not their spelling)", 3)
 	isCounterField := func(v ssa.Value) bool {
-		_, ok := eng.LoadOfField(v, "Counter")
+		_, ok := eng.LoadOfField(eng.StripConv(v), "Counter")
 		return ok
 	}
 	counterStores := func(f *ssa.Function) []*ssa.Store {
@@ -617,14 +617,97 @@ func counterTransitions(c *core.Ctx, rule string) {
 		k, isC := eng.ConstInt(bo.Y)
 		return isC && k == 1 && isCounterField(bo.X)
 	}
+	// counterPred: a comparison of the Counter field with a constant whose truth table over the
+	// counter values 0, 1, 2 is `want` (or its complement) — `== 0`, `!= 0`, `< 1`, `<= 0`,
+	// `> 0`, `>= 1` all denote the same test.
+	counterPred := func(name string, want func(int64) bool) eng.Pred {
+		return eng.Pred{Name: name, Match: func(a eng.Atom) (bool, bool) {
+			if a.Op != token.EQL && a.Op != token.LSS {
+				return false, false
+			}
+			var k int64
+			var counterLeft bool
+			if kk, isC := eng.ConstInt(a.Y); isC && isCounterField(a.X) {
+				k, counterLeft = kk, true
+			} else if kk, isC := eng.ConstInt(a.X); isC && isCounterField(a.Y) {
+				k, counterLeft = kk, false
+			} else {
+				return false, false
+			}
+			same, opposite := true, true
+			for _, cv := range []int64{0, 1, 2} {
+				var t bool
+				switch {
+				case a.Op == token.EQL:
+					t = cv == k
+				case counterLeft:
+					t = cv < k
+				default:
+					t = k < cv
+				}
+				if t != want(cv) {
+					same = false
+				}
+				if t == want(cv) {
+					opposite = false
+				}
+			}
+			if same {
+				return true, true
+			}
+			if opposite {
+				return false, true
+			}
+			return false, false
+		}}
+	}
+	isZero := counterPred("Counter == 0", func(cv int64) bool { return cv == 0 })
+	// every return of f yields b exactly under pred (const results), or the comparison itself
+	resultIs := func(f *ssa.Function, pred eng.Pred) bool {
+		ok := true
+		eng.Instrs(f, func(in ssa.Instruction) {
+			ret, isRet := in.(*ssa.Return)
+			if !isRet || ret.Block() == f.Recover {
+				return
+			}
+			v := returnedValue(ret, 0)
+			if b, isC := constBoolOf(v); isC {
+				want := pred
+				if !b {
+					want = eng.Pred{Name: "not " + pred.Name, Match: func(a eng.Atom) (bool, bool) {
+						w, m := pred.Match(a)
+						return !w, m
+					}}
+				}
+				if g := eng.Guarded(ret, want); !(g.Guarded && g.Edges > 0) {
+					ok = false
+				}
+				return
+			}
+			if r := unspill(v); r != nil {
+				v = r
+			}
+			at := eng.Normalize(v)
+			w, m := pred.Match(at)
+			if !m || w == at.Neg {
+				ok = false
+			}
+		})
+		return ok
+	}
 	if f := fn(c, rule, "internal/message", "Counters", "Increment"); f != nil {
 		sts := counterStores(f)
 		ok := len(sts) == 1 && plusMinus(sts[0], token.ADD)
 		if ok {
 			ok = false
+			isOne := counterPred("Counter == 1", func(cv int64) bool { return cv == 1 })
 			for _, rv := range eng.ResultValues(f, 0) {
-				if eq, isB := rv.(*ssa.BinOp); isB && eq.Op == token.EQL && isCounterField(eq.X) {
-					if k, isC := eng.ConstInt(eq.Y); isC && k == 1 && eng.Dominates(sts[0], eq) {
+				if r := unspill(rv); r != nil {
+					rv = r
+				}
+				at := eng.Normalize(rv)
+				if w, m := isOne.Match(at); m && w != at.Neg {
+					if in, isIn := at.V.(ssa.Instruction); isIn && eng.Dominates(sts[0], in) {
 						ok = true
 					}
 				}
@@ -636,11 +719,7 @@ func counterTransitions(c *core.Ctx, rule string) {
 		sts := counterStores(f)
 		ok := len(sts) == 1 && plusMinus(sts[0], token.ADD)
 		if ok {
-			zero := eng.EqPred("Counter == 0", true, func(x, y ssa.Value) bool {
-				k, isC := eng.ConstInt(y)
-				return isC && k == 0 && isCounterField(x)
-			})
-			g := eng.Guarded(sts[0], zero)
+			g := eng.Guarded(sts[0], isZero)
 			ok = g.Guarded && g.Edges > 0
 			if !ok {
 				// `first = Counter == 0; if first {` with first a named result (spilled to a local
@@ -650,10 +729,9 @@ func counterTransitions(c *core.Ctx, rule string) {
 						return false, false
 					}
 					if r := unspill(a.V); r != nil {
-						if eq, isB := r.(*ssa.BinOp); isB && eq.Op == token.EQL && isCounterField(eq.X) {
-							if k, isC := eng.ConstInt(eq.Y); isC && k == 0 {
-								return true, true
-							}
+						at := eng.Normalize(r)
+						if w, m := isZero.Match(at); m {
+							return w != at.Neg, true
 						}
 					}
 					return false, false
@@ -661,47 +739,34 @@ func counterTransitions(c *core.Ctx, rule string) {
 				g2 := eng.Guarded(sts[0], spilled)
 				ok = g2.Guarded && g2.Edges > 0
 			}
-			for _, rv := range eng.ResultValues(f, 0) {
-				eq, isB := rv.(*ssa.BinOp)
-				if !isB || eq.Op != token.EQL || !isCounterField(eq.X) {
-					ok = false
-					continue
-				}
-				if k, isC := eng.ConstInt(eq.Y); !isC || k != 0 {
-					ok = false
-				}
-			}
+			ok = ok && resultIs(f, isZero)
 		}
-		c.Check(ok, rule, fnName(f)+":first iff counter was 0", f.Pos(), "returns Counter == 0 and increments only then", "IncrementOnce is not `first = Counter == 0; if first { Counter++ }`: a repeated SUBSCRIBE of a held filter is counted again (one UNSUBSCRIBE then no longer removes it) or a new one is refused")
+		c.Check(ok, rule, fnName(f)+":first iff counter was 0", f.Pos(), "increments only when the counter is 0 and returns exactly that", "IncrementOnce does not increment exactly when the counter is 0 and return that: a repeated SUBSCRIBE of a held filter is counted again (one UNSUBSCRIBE then no longer removes it) or a new one is refused")
 	}
 	if f := fn(c, rule, "internal/message", "Counters", "Decrement"); f != nil {
 		sts := counterStores(f)
 		ok := len(sts) == 1 && plusMinus(sts[0], token.SUB)
 		if ok {
-			// the test of the decremented counter: Counter <= 0 (or < 1)
-			var cmp *ssa.BinOp
-			eng.Instrs(f, func(in ssa.Instruction) {
-				bo, isB := in.(*ssa.BinOp)
-				if !isB || !isCounterField(bo.X) || !eng.Dominates(sts[0], bo) {
-					return
+			// after the decrement, "gone" is Counter == 0 (<= 0, < 1, not > 0 …)
+			base := counterPred("Counter <= 0", func(cv int64) bool { return cv <= 0 })
+			gone := eng.Pred{Name: base.Name, Match: func(a eng.Atom) (bool, bool) {
+				w, m := base.Match(a)
+				if !m {
+					return false, false
 				}
-				k, isC := eng.ConstInt(bo.Y)
-				if isC && ((bo.Op == token.LEQ && k == 0) || (bo.Op == token.LSS && k == 1)) {
-					cmp = bo
+				if in, isIn := a.V.(ssa.Instruction); isIn && !eng.Dominates(sts[0], in) {
+					return false, false // a test of the counter before the decrement is another question
 				}
-			})
-			if cmp == nil {
-				c.Fail(rule, fnName(f)+":last iff counter reaches 0", f.Pos(), "Decrement no longer tests `Counter <= 0` after the decrement")
+				return w, true
+			}}
+			if !eng.HasLicensingEdge(f, gone) {
+				c.Fail(rule, fnName(f)+":last iff counter reaches 0", f.Pos(), "Decrement no longer tests whether the decremented counter has reached 0")
 				return
 			}
-			gone := eng.ValuePred("Counter <= 0", cmp, true)
 			eng.Instrs(f, func(in ssa.Instruction) {
 				ret, isRet := in.(*ssa.Return)
-				if !isRet {
+				if !isRet || ret.Block() == f.Recover {
 					return
-				}
-				if ret.Block() == f.Recover {
-					return // the panic path re-reads the named result
 				}
 				b, isC := constBoolOf(returnedValue(ret, 0))
 				if !isC {
@@ -722,8 +787,8 @@ func counterTransitions(c *core.Ctx, rule string) {
 				b, isC := constBoolOf(returnedValue(ret, 0))
 				return isC && b
 			})
-			ok = ok && ok2 && eng.HasLicensingEdge(f, gone)
+			ok = ok && ok2
 		}
-		c.Check(ok, rule, fnName(f)+":last iff counter reaches 0", f.Pos(), "Counter-- then true exactly when Counter <= 0", "Decrement does not return true exactly when the decremented counter is <= 0: the last unsubscribe is not reported (the filter stays in the trie) or an earlier one is (it is removed while still held)")
+		c.Check(ok, rule, fnName(f)+":last iff counter reaches 0", f.Pos(), "Counter-- then true exactly when the counter has reached 0", "Decrement does not return true exactly when the decremented counter has reached 0: the last unsubscribe is not reported (the filter stays in the trie) or an earlier one is (it is removed while still held), or an unsubscribe of a filter that was never held is reported as the last")
 	}
 }
